@@ -213,7 +213,17 @@ class StickyAssignmentExecutor:
     def _initialize(self, cluster: ClusterMetadata) -> None:
         self._init_current_assignments(self.members)
 
+        subscribed_topics = {
+            topic
+            for member_metadata in self.members.values()
+            for topic in member_metadata.subscription
+        }
         for topic in cluster.topics():
+            if topic not in subscribed_topics:
+                # a topic nobody in the group subscribes to must not take part in
+                # the assignment (it would make identical subscriptions look
+                # different)
+                continue
             partitions = cluster.partitions_for_topic(topic)
             if partitions is None:
                 log.warning("No partition metadata for topic %s", topic)
